@@ -52,21 +52,26 @@ SPEC = [
         "fields": ["threshold", "branching_factor", "_merge_accept_fn"],
         "partial_init": True}),
     ("bblean/cli.py", {"functions": ["_validate_output_dir"]}),
+    # the body of the `while True:` loop of the monitor daemon, as a function of the running maximum: its file effects and
+    # the new maximum (`total_rss()`, a closure over psutil, is an input)
+    ("bblean/_memory.py", {"loop_bodies": [("monitor_rss_process", ["max_rss_gib", "file", "start_time", "interval_s"], ["max_rss_gib"])]}),
 ]
 # a parameter annotated with this class is a merge-function object (class name :: attributes); calling it dispatches on the
 # class name to the translated `__call__` of that class (generated function `<base>_call`)
 DISPATCH_BASE = "MergeAcceptFunction"
 
 # calls that are effects of a procedure: recorded, in order, in the returned list
-EFFECTS = {"_madvise_dontneed", "shutil.rmtree"}
+EFFECTS = {"_madvise_dontneed", "shutil.rmtree", "os.replace"}
+# calls whose value is an input of the translated function (clock, samples)
+OPAQUE_CALLS = {"time.perf_counter": "time_perf_counter"}
 # methods of an opaque parameter whose call is an effect (recorded as "<param>.<method>")
 EFFECT_METHODS = {"mkdir"}
 # statements that are dropped (diagnostics only)
-DROPPED_CALLS = {"warnings.warn"}
+DROPPED_CALLS = {"warnings.warn", "time.sleep"}
 # module-level constants that become parameters
 MODULE_SYMBOLS = {"mmap.PAGESIZE": "mmap_PAGESIZE"}
 # module-level variables that become parameters when read
-GLOBAL_SYMBOLS = {"_global_merge_accept"}
+GLOBAL_SYMBOLS = {"_global_merge_accept", "_BYTES_TO_GIB"}
 NP_WIDTH = {"uint8": ".u8", "uint16": ".u16", "uint32": ".u32", "uint64": ".u64"}
 LEAN_RESERVED = {"at", "from", "to", "in", "fun", "end", "open", "show", "have", "then", "else",
                  "if", "let", "do", "match", "with", "def", "Type", "instance", "class", "where",
@@ -75,6 +80,13 @@ LEAN_RESERVED = {"at", "from", "to", "in", "fun", "end", "open", "show", "have",
 
 class Unsupported(Exception):
     pass
+
+
+class _Close(ast.stmt):
+    """synthetic statement: the end of a `with open(...)` block"""
+    def __init__(self, path):
+        super().__init__()
+        self.path = path
 
 
 def src_of(node):
@@ -121,6 +133,7 @@ class FnInfo:
 class Translator:
     def __init__(self):
         self.table = []      # (lean name, arity, kind) of every generated function, for `dispatch`
+        self.consts = []     # generated constants (lists of values), for `dispatch`
         self.dispatch_classes = []   # subclasses of DISPATCH_BASE with a translated __call__
         self.dispatch_attrs = set()  # attribute names of those classes (instance attributes and class-level constants)
         self.fns = {}        # python name -> FnInfo (module-level functions)
@@ -147,7 +160,7 @@ class Translator:
             n, d = v.as_integer_ratio()
             return f"(PV.flt (some (({n} : Rat) / {d})))"
         if isinstance(v, str):
-            return "(PV.str " + '"' + v.replace("\\", "\\\\").replace('"', '\\"') + '")'
+            return "(PV.str " + '"' + v.replace("\\", "\\\\").replace('"', '\\"').replace("\n", "\\n") + '")'
         raise Unsupported(f"constant {v!r} (line {node.lineno})")
 
     def expr(self, e, cx):
@@ -170,6 +183,9 @@ class Translator:
             if isinstance(e.op, ast.Not):
                 return f"(PV.not {self.expr(e.operand, cx)})"
             raise Unsupported(f"unary operator {src_of(e)} (line {e.lineno})")
+        if isinstance(e, ast.BinOp) and isinstance(e.op, ast.Div) and isinstance(e.right, ast.Constant) \
+                and isinstance(e.right.value, str):
+            return f"(PV.pathJoin {self.expr(e.left, cx)} {self.expr(e.right, cx)})"
         if isinstance(e, ast.BinOp):
             ops = {ast.Add: "add", ast.Sub: "sub", ast.Mult: "mul", ast.Div: "truediv", ast.Mod: "mod"}
             for k, v in ops.items():
@@ -342,6 +358,13 @@ class Translator:
             sname = ident(f"any.{e.args[0].func.value.id}.{e.args[0].func.attr}")
             cx["symbols"].add(sname)
             return sname
+        if t in OPAQUE_CALLS and not e.args and not e.keywords:
+            cx["symbols"].add(OPAQUE_CALLS[t])
+            return OPAQUE_CALLS[t]
+        if isinstance(f, ast.Name) and f.id in cx.get("closures", set()) and not e.args and not e.keywords:
+            sname = ident(f.id + "_call")
+            cx["symbols"].add(sname)
+            return sname
         if t == "np.exp" and len(e.args) == 1 and not e.keywords:
             return f"(PV.exp expf {self.expr(e.args[0], cx)})"
         if t == "np.sum" and len(e.args) == 1 and not e.keywords:
@@ -403,6 +426,56 @@ class Translator:
         s, rest = body[0], body[1:]
         if isinstance(s, ast.Expr) and isinstance(s.value, ast.Constant) and isinstance(s.value.value, str):
             return self.stmts(rest, cx, kind, end, ind)          # docstring
+        if isinstance(s, _Close):
+            cx2 = dict(cx, locals=cx["locals"] | {"eff_"})
+            return pad + f'let eff_ := eff_ ++ [PV.str "close", {s.path}]\n' + self.stmts(rest, cx2, kind, end, ind)
+        if isinstance(s, ast.With):
+            if len(s.items) != 1 or kind != "L":
+                raise Unsupported(f"with statement (line {s.lineno})")
+            it = s.items[0]
+            ce = it.context_expr
+            if not (isinstance(ce, ast.Call) and isinstance(ce.func, ast.Name) and ce.func.id == "open" and len(ce.args) == 1
+                    and isinstance(it.optional_vars, ast.Name)):
+                raise Unsupported(f"with statement {src_of(it)} (line {s.lineno})")
+            mode = self.kw(ce, "mode")
+            if not (isinstance(mode, ast.Constant) and isinstance(mode.value, str)):
+                raise Unsupported(f"open() without a literal mode (line {s.lineno})")
+            a0 = ce.args[0]
+            path = f'(PV.str "{a0.id}")' if isinstance(a0, ast.Name) and a0.id in cx["opaque"] else self.expr(a0, cx)
+            cx2 = dict(cx, locals=cx["locals"] | {"eff_"}, handles=dict(cx.get("handles", {}), **{it.optional_vars.id: path}))
+            return (pad + f'let eff_ := eff_ ++ [PV.str "open", {path}, PV.str "{mode.value}"]\n'
+                    + self.stmts(list(s.body) + [_Close(path)] + rest, cx2, kind, end, ind))
+        if isinstance(s, ast.Expr) and isinstance(s.value, ast.Call):
+            c_ = s.value
+            hs = cx.get("handles", {})
+            # f.write(x) / f.flush() / os.fsync(f.fileno()) on a handle bound by `with open(...) as f`
+            if isinstance(c_.func, ast.Attribute) and isinstance(c_.func.value, ast.Name) and c_.func.value.id in hs:
+                path = hs[c_.func.value.id]
+                if c_.func.attr == "write" and len(c_.args) == 1:
+                    a_ = c_.args[0]
+                    if isinstance(a_, ast.JoinedStr):
+                        parts = []
+                        for v_ in a_.values:
+                            if isinstance(v_, ast.Constant):
+                                parts.append(self.const(v_.value, v_))
+                            elif isinstance(v_, ast.FormattedValue) and v_.format_spec is None and v_.conversion == -1:
+                                parts.append(self.expr(v_.value, cx))
+                            else:
+                                raise Unsupported(f"f-string part in {src_of(a_)} (line {s.lineno})")
+                    else:
+                        parts = [self.expr(a_, cx)]
+                    cx2 = dict(cx, locals=cx["locals"] | {"eff_"})
+                    return pad + f'let eff_ := eff_ ++ [PV.str "write", {path}, PV.int {len(parts)}, ' + ", ".join(parts) + "]\n" \
+                        + self.stmts(rest, cx2, kind, end, ind)
+                if c_.func.attr == "flush" and not c_.args:
+                    cx2 = dict(cx, locals=cx["locals"] | {"eff_"})
+                    return pad + f'let eff_ := eff_ ++ [PV.str "flush", {path}]\n' + self.stmts(rest, cx2, kind, end, ind)
+            if flat(c_.func) == "os.fsync" and len(c_.args) == 1 and isinstance(c_.args[0], ast.Call) \
+                    and isinstance(c_.args[0].func, ast.Attribute) and c_.args[0].func.attr == "fileno" \
+                    and isinstance(c_.args[0].func.value, ast.Name) and c_.args[0].func.value.id in hs:
+                cx2 = dict(cx, locals=cx["locals"] | {"eff_"})
+                return pad + f'let eff_ := eff_ ++ [PV.str "fsync", {hs[c_.args[0].func.value.id]}]\n' \
+                    + self.stmts(rest, cx2, kind, end, ind)
         if isinstance(s, ast.Expr) and isinstance(s.value, ast.Call) and isinstance(s.value.func, ast.Attribute):
             f = s.value.func
             # self.<field>.extend(x)
@@ -621,7 +694,8 @@ class Translator:
                         mutating = True
                     if n.func.attr == "extend" and root_name(n.func.value) == "self":
                         mutating = True
-        uses_effects = any(isinstance(n, ast.Call) and flat(n.func) in EFFECTS for n in ast.walk(fn))
+        uses_effects = any(isinstance(n, ast.Call) and flat(n.func) in EFFECTS for n in ast.walk(fn)) \
+            or any(isinstance(n, ast.With) for n in ast.walk(fn))
         if uses_effects:
             mutating = False        # a procedure with recorded effects: effect list ++ fields (as before)
         has_raise = any(isinstance(n, ast.Raise) for n in ast.walk(fn))
@@ -647,7 +721,7 @@ class Translator:
         cx = {"params": set(params) - opaque - set(objparams), "selfattrs": selfattrs, "symbols": set(),
               "locals": set(), "opaque": opaque, "dataclass_fields": fields if is_classmethod else None,
               "written": [], "cls": cls, "objparams": objparams, "listparams": listparams, "mutating": mutating,
-              "status_first": status_first}
+              "status_first": status_first, "closures": set(getattr(fn, "_closures", []))}
         partial = is_init and self.classes[cls].get("partial_init")
         if partial:
             def end(c):
@@ -667,9 +741,10 @@ class Translator:
                 return "eff_ ++ [" + ", ".join(c["selfattrs"][x] for x in attrs) + "]"
         elif is_fproc:
             cx["locals"] = {"eff_"}
+            state_vars = getattr(fn, "_state_vars", [])
 
             def end(c):
-                return "eff_"
+                return "eff_" + (" ++ [" + ", ".join(ident(v) for v in state_vars) + "]" if state_vars else "")
         elif mutating:
             def end(c):
                 return "[" + ", ".join((["PV.pynone"] if status_first else []) + [c["selfattrs"][x] for x in fields]) + "]"
@@ -875,6 +950,34 @@ class Translator:
 
         if spec.get("dispatch"):
             self.emit_dispatch([k for k in spec["classes"] if "__call__" in self.classes[k]["methods"]], path)
+        for fname, params_, state_ in spec.get("loop_bodies", []):
+            if fname not in top or not isinstance(top[fname], ast.FunctionDef):
+                raise Unsupported(f"function {fname} not found in {path}")
+            outer = top[fname]
+            loops = [n for n in outer.body if isinstance(n, ast.While) and isinstance(n.test, ast.Constant) and n.test.value is True]
+            if len(loops) != 1:
+                raise Unsupported(f"{fname}: expected exactly one top-level `while True:` loop")
+            synth = ast.FunctionDef(name=fname + "_loop", args=ast.arguments(posonlyargs=[], args=[ast.arg(arg=p_) for p_ in params_],
+                                    kwonlyargs=[], kw_defaults=[], defaults=[]), body=list(loops[0].body), decorator_list=[],
+                                    lineno=loops[0].lineno, col_offset=0)
+            synth._state_vars = list(state_)
+            synth._closures = [n.name for n in outer.body if isinstance(n, ast.FunctionDef)]
+            for n in ast.walk(synth):
+                if isinstance(n, (ast.Break, ast.Continue, ast.Return)):
+                    raise Unsupported(f"{fname}: break / continue / return inside the loop body (line {n.lineno})")
+            self.emit_fn(synth, ident(fname + "_loop"), path, f"{fname} (body of the `while True` loop)")
+            # the values the state variables have when the loop is entered: the last top-level literal assignment before it
+            inits = []
+            before = outer.body[:outer.body.index(loops[0])]
+            for v_ in state_:
+                asg = [n for n in before if isinstance(n, ast.Assign) and len(n.targets) == 1
+                       and isinstance(n.targets[0], ast.Name) and n.targets[0].id == v_]
+                if not asg or not isinstance(asg[-1].value, ast.Constant):
+                    raise Unsupported(f"{fname}: no literal initial value for {v_} before the loop")
+                inits.append(self.const(asg[-1].value.value, asg[-1].value))
+            self.out.append(f"/-- `{path}` : `{fname}`, the state variables on entry of the loop -/")
+            self.out.append(f"def {ident(fname + '_loop_init')} : List PV := [" + ", ".join(inits) + "]\n")
+            self.consts.append(ident(fname + "_loop_init"))
         for fname in spec.get("functions", []):
             if fname not in top or not isinstance(top[fname], ast.FunctionDef):
                 raise Unsupported(f"function {fname} not found in {path}")
@@ -911,6 +1014,8 @@ class Translator:
             rhs = f"[{call}]" if kind == "V" else f"({call})"
             pat = f'[{", ".join(vs)}]' if ar >= 0 else " :: ".join(vs + ["obj"])
             self.out.append(f'  | "{name}", {pat} => some {rhs}')
+        for name in self.consts:
+            self.out.append(f'  | "{name}", [] => some {name}')
         self.out.append("  | _, _ => none")
         self.out.append("")
         self.out.append("end BBGen")
